@@ -156,7 +156,8 @@ def _gen_ops(rng, n_ops, n_prim, world_has_nac, fault_mode, tier):
         elif kind == "cutoff":
             op.update(radius=rng.choice([2.5, 3.5, 4.5, 6.0]))
         elif kind == "set_nac":
-            op.update(method=rng.choice([None, "gonze", "wang", "default"]), zscale=rng.choice([1.0, 0.7, 1.4]), with_factor=rng.random() < 0.92)
+            op.update(method=rng.choice([None, "gonze", "wang", "default"]), zscale=rng.choice([1.0, 0.7, 1.4]), with_factor=rng.random() < 0.92,
+                      non_neutral=rng.choice([0.0, 0.0, 0.03]))  # charges that do not sum to zero: phonopy corrects its own copy, not the caller's
         elif kind == "set_masses":
             op.update(factors=[rng.choice([1.0, 1.1, 2.0, 0.5]) for _ in range(n_prim)])
         elif kind == "gen_disp":
@@ -196,7 +197,9 @@ def _gen_ops(rng, n_ops, n_prim, world_has_nac, fault_mode, tier):
         elif kind == "switch":
             st, other = other, st
         elif kind == "invalid":
-            op.update(which=rng.choice(["fc_wrong_shape", "symmetrize_without_fc", "displacements_on_type1", "dataset_bad_format"]))
+            op.update(which=rng.choice(["fc_wrong_shape", "symmetrize_without_fc", "displacements_on_type1", "dataset_bad_format"] + (["nac_wrong_count"] * 2 if world_has_nac else [])))
+            if op["which"] == "nac_wrong_count" and i + 2 < n_ops and seq[i + 1] is None and seq[i + 2] is None:
+                seq[i + 1], seq[i + 2] = "set_nac", "query"  # a refused assignment must not spoil the next valid one
         elif kind == "query":
             op.update(kind=rng.choice(QUERY_KINDS), seed=rng.getrandbits(32), eigvecs=rng.random() < 0.4, gv=rng.random() < 0.3,
                       mesh=[rng.randint(1, 3) for _ in range(3)], mesh_sym=rng.random() < 0.6, band_conn=rng.random() < 0.3,
@@ -513,6 +516,18 @@ def execute(spec):
                 return kind, []
             bad = cmp_outputs(got, want)
             log.append(("q", kind, core.digest(got)))
+            # results handed out by EARLIER queries must still hold what they held (a later query of the same size must not
+            # refill an array the caller already has); then remember this query's arrays
+            for ent in getattr(t, "handed_out", []):
+                lab_, arr_, snap_ = ent
+                if arr_.shape != snap_.shape or not np.array_equal(arr_, snap_, equal_nan=True):
+                    bad = bad + [("earlier-result(%s)-overwritten" % lab_, float(np.max(np.abs(arr_ - snap_))) if arr_.shape == snap_.shape else -1.0)]
+                    ent[2] = arr_.copy()
+            keep = []
+            for name_, val_ in (got or {}).items():
+                if isinstance(val_, np.ndarray) and val_.size and val_.dtype.kind in "fc":
+                    keep.append(["%s:%s" % (kind, name_), val_, val_.copy()])
+            t.handed_out = (getattr(t, "handed_out", []) + keep)[-12:]
             return kind, bad
 
         for op in spec["ops"]:
@@ -566,7 +581,8 @@ def execute(spec):
                     if op["method"] is None or nac_model is None:
                         val = None
                     else:
-                        val = {"born": nac_model["born"] * op["zscale"], "dielectric": nac_model["dielectric"].copy()}
+                        val = {"born": np.array(nac_model["born"] * op["zscale"] + op.get("non_neutral", 0.0) * np.eye(3)[None, :, :], dtype="double", order="C"),
+                               "dielectric": nac_model["dielectric"].copy()}
                         if op["with_factor"]:
                             val["factor"] = nac_model["factor"]
                         if op["method"] != "default":
@@ -718,7 +734,7 @@ def execute(spec):
                     if len(targets) > 1:
                         cur = 1 - cur
                 elif kind == "invalid":
-                    before = (snapshot(ph.force_constants), snapshot(ph.dataset))
+                    before = (snapshot(ph.force_constants), snapshot(ph.dataset), snapshot(ph.nac_params))
                     ok_raise = False
                     try:
                         if op["which"] == "fc_wrong_shape":
@@ -735,18 +751,23 @@ def execute(spec):
                                 raise RuntimeError("n/a")
                         elif op["which"] == "dataset_bad_format":
                             ph.dataset = {"foo": 1}
+                        elif op["which"] == "nac_wrong_count":
+                            if nac_model is None or ph.force_constants is None:
+                                raise RuntimeError("n/a")
+                            ph.nac_params = {"born": nac_model["born"][:-1].copy(), "dielectric": nac_model["dielectric"].copy(), "factor": nac_model["factor"]}
                     except Exception:  # noqa: BLE001
                         ok_raise = True
                     faults["operation_that_must_raise"] = faults.get("operation_that_must_raise", 0) + 1
                     if not ok_raise:
                         probes["invalid_operation_accepted:" + op["which"]] = probes.get("invalid_operation_accepted:" + op["which"], 0) + 1
-                    after = (snapshot(ph.force_constants), snapshot(ph.dataset))
+                    after = (snapshot(ph.force_constants), snapshot(ph.dataset), snapshot(ph.nac_params))
                     if ok_raise and not same(before, after):
                         V("failed-operation-changed-state", op["which"])
                     if not ok_raise:
                         # accepted: re-sync the model with what the object reports (not a violation of C15 by itself)
                         t.fc = None if ph.force_constants is None else np.array(ph.force_constants, copy=True)
                         t.dataset = snapshot(ph.dataset)
+                        t.nac = copy.deepcopy(ph.nac_params)
                 elif kind == "build_swap":
                     nv = "serial" if E.current == "sim" else "sim"
                     E.use(nv)
@@ -774,6 +795,7 @@ def execute(spec):
                     if obj is not None:
                         before = snapshot(obj)
                         n = scribble(obj)
+                        t.handed_out = []  # the caller scribbles on purpose: earlier results are no longer tracked
                         if n:
                             faults["scribble_on_handed_out:" + g] = faults.get("scribble_on_handed_out:" + g, 0) + 1
                             after = snapshot(again())
